@@ -491,6 +491,30 @@ def w_images(ctx, rng, i):
                     ctx.fail("pts_coordinates_changed_beyond_three_decimals", cls="PointCloud", mech="imported_next_to_an_image:" + ("multi_dot_name" if "." in st else "plain_name"))
                 if not ok_lj:
                     ctx.fail("ljson_coordinates_changed", cls="PointCloud", mech="imported_next_to_an_image:" + ("multi_dot_name" if "." in st else "plain_name"))
+        # the usual one-folder-per-subject layout: the same file names in several folders, imported in one go - every image comes
+        # back with the landmarks exported next to *it*
+        if i % 3 == 1 and min(H, W) > 1:
+            import menpo.shape as ms
+            folders = ["subject_a", "subject_b", "subject_c"][: int(rng.integers(2, 4))]
+            want2 = {}
+            for fo in folders:
+                os.makedirs(os.path.join(sb.dir, fo))
+                for st in ("001", "002"):
+                    mio.export_image(mi.Image(rng.random((C, H, W))), os.path.join(sb.dir, fo, st + ".png"))
+                    lj = ms.PointCloud(rng.uniform(0, 1, (3, 2)) * (np.array([H, W]) - 1))
+                    mio.export_landmark_file(lj, os.path.join(sb.dir, fo, st + ".ljson"))
+                    want2[(fo, st)] = lj.points.copy()
+            got_all = list(mio.import_images(os.path.join(sb.dir, "*", "*.png")))
+            ctx.tap("same_names_in_several_folders", "calls"); ctx.tap("same_names_in_several_folders", "checked")
+            if len(got_all) != len(want2):
+                ctx.fail("ljson_coordinates_changed", cls="PointCloud", mech="several_folders:wrong_number_of_images", got=len(got_all), expected=len(want2))
+            for im_ in got_all:
+                key_ = (os.path.basename(os.path.dirname(str(im_.path))), os.path.splitext(os.path.basename(str(im_.path)))[0])
+                names_ = sorted(im_.landmarks.keys()) if im_.has_landmarks else []
+                if names_ != ["LJSON"]:
+                    ctx.fail("ljson_group_names_changed", cls="ljson", mech="several_folders", before=["LJSON"], after=names_)
+                elif key_ not in want2 or not np.array_equal(im_.landmarks["LJSON"].points, want2[key_]):
+                    ctx.fail("ljson_coordinates_changed", cls="PointCloud", mech="imported_next_to_an_image:same_name_in_another_folder")
     ctx.count_case(("image", fmt, C, (min(H, 2), min(W, 2))), nontrivial=True, sample={"format": fmt, "channels": C, "shape": [H, W]} if i < 4 else None)
 
 
